@@ -8,6 +8,7 @@ mod c15;
 mod c16;
 mod c17;
 mod c18;
+mod c19;
 mod dftzoo;
 mod c20;
 mod c14seg;
@@ -33,6 +34,7 @@ fn main() {
         "c17" => c17::run(&args),
         "dbg17" => c17::debug(&args),
         "c18" => c18::run(&args),
+        "c19" => c19::run(&args),
         "c20" => c20::run(&args),
         "thermo" => thermo::run(&args),
         "igcp" => igcp::run(&args),
